@@ -65,6 +65,18 @@ CLAIMED["C02"] = dict(
     design_ref="DESIGN.md §4 C02",
 )
 
+FS_NOTE = SYMX_NOTE + (" File system, clock and SHA-256 are models (harness/internal/verifrt/vfs): every os/(*os.File)/time.Now/crypto/sha256 call of the code under test is redirected to them; "
+    "counterexamples of these checks are confirmed by concrete re-execution of the real SSA under the model (not by a native run).")
+CLAIMED["C05"] = dict(
+    engine="symx",
+    technique="symbolic execution of the real cache code (Get/get/GetFile/GetBytes/OutputFile/used/Put/put/copyFile/putIndexEntry) from go/ssa over a file-system model; z3 decides data bytes, damaged bytes and index-entry bytes",
+    text=("The cache's lookup and store paths are executed symbolically over a modelled file system whose file contents are solver variables. Histories of Put/GetBytes/GetFile with symbolic data "
+          "must return exactly the stored bytes; after any single damage step (delete, truncate, overwrite a byte with any value, append) lookups must be not-found or checksum/size-consistent and "
+          "never panic; a re-Put repairs; index entries with windows of arbitrary bytes, any truncation/extension and a fully arbitrary OutputID field are accepted only as what they spell for this id."),
+    design_ref="DESIGN.md §4 C05",
+    note=FS_NOTE,
+)
+
 NOT_APPLICABLE = {
     "C20": "goproxytest's behaviour lives in net/http, archive/zip+flate, encoding/json (reflection) and directory walks; none is encodable by the SSA symbolic executor, and with them stubbed nothing solver-relevant remains (its once-per-key ingredient is par.Cache = C10)",
 }
